@@ -115,6 +115,27 @@ Definition lowres (s : sys) : option Z := match cell s with Some (_, v) => Some 
 
 End Sys.
 
+(* The background refresher.  updateTS.doUpdate ranges over the scopes that HAVE an entry in lastTSMap and, for each,
+   runs getTimestamp + setLastTS (and merely logs a PD failure).  Threads t with  role t = true  are refresher rounds:
+   such a round can only be launched for a scope that has an entry — its invocation step is not enabled while the
+   scope has none (a disabled event is a no-op that lets time pass) — everything else, including a PD failure
+   (EvFail), is what any caller does.  role is arbitrary: any subset of the threads, any number of rounds. *)
+Definition step_role (pd : nat -> Z) (role : nat -> bool) (s : sys) (e : event) : sys :=
+  match e with
+  | Ev t =>
+      match nth_error (thr s) t with
+      | Some th =>
+          match tpc th, cell s with
+          | PIdle, None => if role t then tick s else step pd s e
+          | _, _ => step pd s e
+          end
+      | None => step pd s e
+      end
+  | _ => step pd s e
+  end.
+Definition run_role (pd : nat -> Z) (role : nat -> bool) (s : sys) (es : list event) : sys :=
+  fold_left (step_role pd role) es s.
+
 (* order on the cached value: absent <= anything *)
 Definition ole (a b : option Z) : Prop :=
   match a, b with
